@@ -316,9 +316,16 @@ where
             }
         };
 
-        sink.close()
+        // A sink which fails to close must not make us return before the terminal event was
+        // emitted: treat it as a failure of the session (an earlier error takes precedence).
+        let close_result = sink
+            .close()
             .await
-            .map_err(|err| TopicLogSyncChannelError::MessageSink(format!("{err:?}")))?;
+            .map_err(|err| TopicLogSyncChannelError::MessageSink(format!("{err:?}")));
+        let result = match (result, close_result) {
+            (Ok(()), Err(err)) => Err(err.into()),
+            (result, _) => result,
+        };
 
         let final_event = match result.as_ref() {
             Ok(_) => {
